@@ -367,6 +367,9 @@ def finish(report, stage, findings_probe=None, search=None):
                 'no_longer_checks': broken[:20],
                 'note': 'no failing input was found on the real code; the property is no longer shown to hold'})
             violations.append('VIOLATION property=%s replay=%s no-failing-input-found' % (prop, path))
+    if report.disagreements and os.environ.get('VERIF_DEBUG'):
+        with open(os.path.join(VERIF, 'scratch', 'disagreements-%s.json' % prop), 'w') as f:
+            json.dump(report.disagreements[:50], f, indent=1, default=str)
     for v in violations:
         print(v, flush=True)
     write_evidence(report, stage, len(violations))
